@@ -102,6 +102,30 @@ def fam_obs_random(seed, shard, nshards, n):
         yield line, exp, f'obs-{which}' + ('-err' if exp.startswith('ERR') else '')
 
 
+BIG_VIEWS = [(15, 15), (7, 31), (31, 7), (3, 63), (1, 127), (15, 31), (7, 7), (9, 9), (11, 11), (13, 13)]
+
+
+def fam_obs_bigviews(seed, shard, nshards, n):
+    """large views, in particular those whose ray count (h+1)(w+1) is a multiple of 256: counters
+    kept in a narrow integer type would wrap there"""
+    rng = random.Random(f'obsbig-{seed}')
+    k = 0
+    for rep in range(max(1, n // (2 * len(BIG_VIEWS)))):
+        for (h, w) in BIG_VIEWS:
+            for which in ('raytracing', 'stochastic_raytracing'):
+                k += 1
+                if k % nshards != shard:
+                    continue
+                ymin = -rng.randint(0, h - 1)
+                xmin = -rng.randint(0, w - 1)
+                area = Area((ymin, ymin + h - 1), (xmin, xmin + w - 1))
+                s = gen.random_state(rng, max_h=6, max_w=6, min_h=3, min_w=3, p_floor=0.7)
+                r = obs_line(which, s, area, rng.randrange(2**32))
+                if r is None:
+                    continue
+                yield r[0], r[1], f'obsbig-{which}-{h}x{w}' + ('-err' if r[1].startswith('ERR') else '')
+
+
 def fam_obs_smallscope(seed, shard, nshards, n):
     """all poses on labelled grids <= 3x3 x all areas with -2 <= ymin <= ymax <= 2 (same for x),
     sharded; fully transparent + partially occluded (the shipped function) + raytracing"""
